@@ -38,3 +38,25 @@ def iff(a, b):
 
 def ite(c, a, b):
     return a if c else b
+
+
+UF_IMPL = {}
+
+
+def uf_impl(name):
+    """register the concrete reading of an uninterpreted function symbol used through uf(name, type, *args)"""
+    def deco(fn):
+        UF_IMPL[name] = fn
+        return fn
+    return deco
+
+
+def uf(name, ty, *args):
+    return UF_IMPL[name](*args)
+
+
+def same(a, b):
+    import math
+    if isinstance(a, float) and isinstance(b, float) and math.isnan(a) and math.isnan(b):
+        return True
+    return a == b
